@@ -4,7 +4,7 @@
 Model of the four `char` functions `convert_string` relies on
 (`is_alphanumeric`, `is_uppercase`, `to_uppercase`, `to_lowercase`), defined on the
 *supported alphabet* `Σ` (`inSigma`): ASCII, the Latin-1 letters U+00C0–U+00FE (without × ÷),
-Cyrillic U+0400–U+045F and the caseless CJK block U+4E00–U+4E0F.
+Cyrillic U+0400–U+045F and the caseless CJK block U+4E00–U+4E3F.
 The correspondence harness compares these functions with Rust's `std` exhaustively over `Σ`
 on every run.  Outside `Σ` the functions are total but nothing is claimed about Rust.
 -/
@@ -21,7 +21,7 @@ macro "cl!" s:str : term => do
 
 def inSigma (c : Char) : Bool :=
   let n := c.toNat
-  n < 128 || (0xC0 ≤ n && n ≤ 0xFE && n != 0xD7 && n != 0xF7) || (0x400 ≤ n && n ≤ 0x45F) || (0x4E00 ≤ n && n ≤ 0x4E0F)
+  n < 128 || (0xC0 ≤ n && n ≤ 0xFE && n != 0xD7 && n != 0xF7) || (0x400 ≤ n && n ≤ 0x45F) || (0x4E00 ≤ n && n ≤ 0x4E3F)
 
 /-- `char::is_uppercase` on `Σ` -/
 def isUpper (c : Char) : Bool :=
@@ -38,7 +38,7 @@ def isDigit (c : Char) : Bool := 48 ≤ c.toNat && c.toNat ≤ 57
 /-- `char::is_alphanumeric` on `Σ` -/
 def isAlnum (c : Char) : Bool :=
   let n := c.toNat
-  isDigit c || isUpper c || isLower c || (0x4E00 ≤ n && n ≤ 0x4E0F)
+  isDigit c || isUpper c || isLower c || (0x4E00 ≤ n && n ≤ 0x4E3F)
 
 /-- a letter: alphanumeric and not a digit -/
 def isLetter (c : Char) : Bool := isAlnum c && !isDigit c
